@@ -185,13 +185,30 @@ static Verdict run_exh(const ExhCase &c) {
       // A value that the format represents exactly must survive a dithered store: the noise that is added before
       // truncation is smaller than one step.  (Asserted for channel widths 1, 2, 4 and 8 only: for 3, 5 and 6 bits the
       // 8-bit intermediate is a bit-replicated value, which the float pipeline does not map back onto the exact grid.)
+      std::unique_ptr<Image> amap_img;
       auto wok = [](int b) { return b == 0 || b == 1 || b == 2 || b == 4 || b == 8; };
       if (c.dither && packed_rgb(f) && wok(abits(f)) && wok(rbits(f)) && wok(gbits(f)) && wok(bbits(f))) {
         pixman_image_set_dither(back->im, (pixman_dither_t)c.dither);
         pixman_image_set_dither_offset(back->im, c.dox, c.doy);
         v.label("dithered_store");
+        // a format without alpha channel keeps its alpha in an attached a8 map: opaque content must arrive there as 0xff
+        if (!abits(f) && (c.dox & 1)) {
+          Bits ab = gen_bits_fixed(fmt_index(PIXMAN_a8), W, H, 3);
+          ab.fill = FILL_ZERO;
+          amap_img = make_image(ab);
+          pixman_image_set_alpha_map(back->im, amap_img->im, 0, 0);
+        }
       }
       pixman_image_composite32(PIXMAN_OP_SRC, dst->im, nullptr, back->im, c.dx, 0, 0, 0, 0, 0, W, H);
+      if (amap_img) {
+        for (int i = 0; i < n && v.ok; i++) {
+          uint32_t mid = raw_get(dst->rowp(i / W), 32, i % W + c.dx);
+          uint32_t am = raw_get(amap_img->rowp(i / W), 8, i % W);
+          if (am != (mid >> 24)) v.fail(fmt("dithered store into %s with an a8 alpha map: alpha 0x%02x arrived in the map as 0x%02x", FORMATS[c.fmt].name, mid >> 24, am));
+        }
+        pixman_image_set_alpha_map(back->im, nullptr, 0, 0);
+        v.label("dithered_store_with_alpha_map");
+      }
       uint32_t dm = defined_mask(f);
       for (int i = 0; i < n && v.ok; i++) {
         uint32_t got = raw_get(back->rowp(i / W), BPP, i % W);
